@@ -118,6 +118,7 @@ class SimHTTPTransport(httpx.AsyncBaseTransport):
         self.requests: List[dict] = []
         self.streams: List[SimStream] = []
         self.closed_count = 0
+        self.pre_delay = None
 
     async def handle_async_request(self, request: httpx.Request) -> httpx.Response:
         sim = self.sim
@@ -126,6 +127,11 @@ class SimHTTPTransport(httpx.AsyncBaseTransport):
                "body": bytes(body), "t": sim.now(), "eseq": sim.rec("http", f"request:{request.method}", None)}
         self.requests.append(rec)
         to = request.extensions.get("timeout", {}) or {}
+        if self.pre_delay is not None:
+            # transit time of the request: the server only sees (and orders) it after this delay
+            d = self.pre_delay(rec)
+            if d:
+                await anyio.sleep(d)
         beh = self.server(rec)
         rec["behaviour"] = {k: v for k, v in beh.items() if k not in ("chunks", "on_stream")}
         exc = beh.get("exc")
